@@ -7,7 +7,9 @@ RULE = ('seeded random scenarios: handler objects whose only strong reference is
         'callback position, scripted __hash__ to reach different listener iteration orders; after every '
         'drop the harness checks through weakref + gc.collect() that the object is really gone (runtime '
         'part).  Non-trivial: a drop happened and a later dispatch delivered; distinct by scenario hash.')
-ASSUMPTIONS = ['CPython frees an object as soon as its last strong reference goes away (reference counting, '
+ASSUMPTIONS = ['World stream: callbacks are passive and do not raise (registered iff attached, C02), objects are '
+               'Python objects without reference cycles',
+               'CPython frees an object as soon as its last strong reference goes away (reference counting, '
                'no cycles): assumed by the theorem, observed on the implementation by the harness',
                'callbacks are scripted reactions made of dispatcher operations']
 KINDS = ['add', 'add', 'remove', 'dispatch', 'dispatch', 'dispatch', 'drop', 'ishandler']
@@ -38,6 +40,72 @@ def oracle(lines, obs):
 
 def nontrivial(lines, obs):
     return any('drop' in l for l in lines) and any(o.startswith('cb ') for o in obs)
+
+
+# ---------------------------------------------------------------------------- "and therefore a World"
+WORLD_CLAUSES = {'kept-alive', 'collected-while-attached', 'outcome', 'missing-callback', 'unexpected-callback',
+                 'wrong-callback', 'registered-iff-attached', 'hang', 'shape', 'truncated'}
+
+
+class _WorldStream:
+    """World histories in which the program forgets objects (drops its own references) at arbitrary
+    points: attached ones live on through the world and keep working, detached ones are collected - a
+    postponed on_add / on_remove naming one still reaches it - and nothing raises."""
+    MODEL = 'world'
+
+    @staticmethod
+    def generate(rng, n):
+        from harness import gen_world
+        for _ in range(n):
+            yield gen_world.gen_scenario(
+                rng, ops_range=(3, 18), n_comp=(1, 4), n_proc=(0, 2), handlers=0.9, ctrl=0.4, forget=0.3,
+                clear_disabled=False,
+                w=dict(enable=3, add=6, create=5, remove=5, delete=3, process=2, clear=0.3, dispatch=1, addproc=1,
+                       rmproc=0.5))
+
+    @staticmethod
+    def project(obs):
+        from harness.props import _world
+        return [o for o in _world.norm_ret(obs)
+                if o.split()[0] in ('cb', 'res', 'ret', 'get', 'row', 'exists', 'entities', 'procs', 'ish')]
+
+    @staticmethod
+    def oracle(lines, obs):
+        from harness import spec_world
+        out = []
+        for v in spec_world.check(lines, obs):
+            if v['sig'].split(':')[0] in WORLD_CLAUSES:
+                out.append({'sig': 'C10:world:' + v['sig'], 'what': v['what']})
+        return out
+
+    @staticmethod
+    def nontrivial(lines, obs):
+        return any(o.startswith('alive ') and o.endswith(' 0') for o in obs) and \
+            any(o.startswith('cb ') for o in obs)
+
+
+def stream_for(lines):
+    return _WorldStream if any(ln.startswith('class') and 'kind=' in ln for ln in lines) else None
+
+
+def extra_checks(ctx):
+    import random
+    from harness import core
+    from harness.models import world as impl_world
+    rng = random.Random(ctx.seed * 7907 + 10)
+    n = 200 if ctx.tier == 'quick' else 4000
+    scen = list(_WorldStream.generate(rng, n))
+    divs, nontriv, impl_obs, _ = core.correspondence(ctx, _WorldStream, impl_world, scen, 'world')
+    if divs:
+        ctx.broken.append({'kind': 'correspondence', 'stream': 'world', 'count': len(divs), 'first': divs[0]})
+    ctx.cov['world_stream'] = {
+        'scenarios': n, 'nontrivial': len(nontriv),
+        'forget_ops': sum(1 for s in scen for l in s if l.startswith('op forget')),
+        'objects_collected': sum(1 for obs in impl_obs for o in set(obs) if o.startswith('alive ') and o.endswith(' 0')),
+        'rule': 'seeded World histories (no raising callbacks) with `forget <object>` steps: the harness drops its '
+                'reference and reports after every operation whether the object is still alive (weakref + '
+                'gc.collect()); compared with the Lean world model and judged by the world statement plus '
+                '"alive iff held as component/processor (or named by a postponed lifecycle callback)"'}
 
 
 def stats(scenarios, impl_obs):
